@@ -21,7 +21,7 @@ def sh(cmd, cwd=None, env=None, timeout=3600):
 
 def main():
     prop, d = sys.argv[1], os.path.abspath(sys.argv[2])
-    props = sys.argv[3:] or [prop]
+    props = [a for a in sys.argv[3:] if not a.startswith('dest=')] or [prop]
     tag = re.sub(r"[^A-Za-z0-9]", "", d)[-24:]
     wt = "/tmp/se-wt-" + tag
     vb = "/tmp/se-vb-" + tag
@@ -31,33 +31,35 @@ def main():
     res = {"property": prop, "dir": d}
     try:
         run = open(d + "/RUN.txt").read()
-        # RUN.txt: free text; take the copy destination and the command by convention or heuristics
-        m_copy = re.search(r"(?:copy|cp)[^\n]*?\s(\S*demo\S*\.go)\s+(?:to|into|->)?\s*(\S+)", run, re.I)
-        cmds = re.findall(r"`([^`]*go (?:test|run)[^`]*)`", run) or [l.strip() for l in run.splitlines() if re.search(r"\bgo (test|run)\b", l)]
-        demo_cmd = cmds[-1] if cmds else None
-        res["demo_cmd"] = demo_cmd
-        # copy every demo file next to where RUN.txt says; fall back to explicit DEST: line
-        m_dest = re.search(r"DEST:\s*(\S+)", run)
+        seedroot = "/tmp/seed-%s" % prop
+        # destination of the demo file: a full path under the seed worktree named in RUN.txt
+        gofiles = [f for f in os.listdir(d) if f.endswith(".go")]
+        m = re.search(r"(%s/(?!out/)[A-Za-z0-9_./-]+\.go)" % re.escape(seedroot), run)
+        if len(sys.argv) > 3 and sys.argv[3].startswith("dest="):
+            destfile = sys.argv.pop(3)[5:]
+        elif m:
+            destfile = m.group(1)[len(seedroot) + 1:]
+        else:
+            m2 = re.search(r"((?:[A-Za-z0-9_.-]+/)+[A-Za-z0-9_.-]+\.go)", run.replace("out/", "OUT/"))
+            destfile = m2.group(1) if m2 else "seed_demo_test.go"
         dests = []
-        for f in os.listdir(d):
-            if f.endswith(".go"):
-                dest = None
-                if m_dest:
-                    dest = m_dest.group(1)
-                else:
-                    mm = re.search(r"(/tmp/seed-[A-Za-z0-9]+/)?([A-Za-z0-9_./-]+/)" + re.escape(f), run)
-                    if mm:
-                        dest = mm.group(2)
-                if dest is None:
-                    dest = "."
-                dest = dest.replace("/tmp/seed-%s/" % prop, "")
-                dd = os.path.join(wt, dest)
-                os.makedirs(dd, exist_ok=True)
-                shutil.copy(os.path.join(d, f), os.path.join(dd, f))
-                dests.append(os.path.join(dest, f))
+        for f in gofiles:
+            dd = os.path.join(wt, destfile) if len(gofiles) == 1 else os.path.join(wt, os.path.dirname(destfile), f)
+            os.makedirs(os.path.dirname(dd), exist_ok=True)
+            shutil.copy(os.path.join(d, f), dd)
+            dests.append(os.path.relpath(dd, wt))
         res["demo_files"] = dests
-        if demo_cmd:
-            demo_cmd = demo_cmd.replace("/tmp/seed-%s" % prop, wt)
+        lines = [l.strip().strip("`") for l in run.splitlines() if re.search(r"\bgo (test|run)\b", l)]
+        demo_cmd = None
+        if lines:
+            demo_cmd = lines[-1]
+            i = demo_cmd.find("cd ")
+            j = demo_cmd.find("go ")
+            k = demo_cmd.find("export ")
+            starts = [x for x in (i, j, k) if x >= 0]
+            demo_cmd = demo_cmd[min(starts):]
+            demo_cmd = demo_cmd.replace(seedroot, wt)
+        res["demo_cmd"] = demo_cmd
         rc0, o0 = sh(demo_cmd, cwd=wt) if demo_cmd else (None, "")
         res["demo_on_clean"] = "pass" if rc0 == 0 else "FAIL(%s)" % rc0
         rc, o = sh("git apply %s/patch.diff" % d, cwd=wt)
